@@ -315,7 +315,11 @@ fn eval_xlsmc(b: &[u8], drv: &mut Driver) -> Outcome {
     let mut out = Outcome::default();
     let imp = match guarded(|| calamine::verif_hooks::xls::c17_parse_merge_cells(b)) {
         Ok(Ok(l)) => format!("ok {}", show_rects(&l)),
-        Ok(Err(e)) => format!("err:{e}"),
+        // `Len { expected, found, typ: "merge cells" }` (Debug text from the hook) → `err:Len:merge cells`
+        Ok(Err(e)) => match (e.starts_with("Len"), e.find("typ: \"")) {
+            (true, Some(i)) => format!("err:Len:{}", e[i + 6..].chars().take_while(|c| *c != '"').collect::<String>()),
+            _ => format!("err:{e}"),
+        },
         Err(_) => "panic".into(),
     };
     let model = drv.ask(&format!("xlsmc {}", hex(b)));
